@@ -101,6 +101,29 @@ CHECKS = {
          'bounded-exhaustive strings x rule lists x configurations on the real encoder against a reference model; call-history exploration of the helper cache',
          'DESIGN.md section 4 C04'),
 
+ 'C08': ('exploration',
+         'Invertible alphabet = 1314 characters (every built-in encoding + printable ASCII + newline, minus the committed, structurally computed list mc/data/c08_not_invertible.json of many-to-one / approximate encodings). '
+         'Every alphabet character alone and in the frames c.n, n.c, n.c.n for one representative of each of 12 neighbour classes (letter, digit, space, newline, period, brace, accented letter, control-word letter, '
+         'no-break space, backslash, percent, combining mark), all strings of length <= 3 over 15 class representatives, and (thorough) every ordered pair of alphabet characters; x 4 brace-protection schemes x 2 latex2text whitespace policies: '
+         'l2t(enc(s), tolerant_parsing=False) == NFC(s).',
+         'Trusted: the committed exception list (fixes the alphabet; reviewed; never rewritten by the check). Strings containing an ASCII ligature pair or a non-canonical spelling of a blank line are not generated.',
+         'bounded-exhaustive strings over the invertible alphabet x configurations, round-trip oracle',
+         'DESIGN.md section 4 C08'),
+ 'C13': ('exploration',
+         'Every string of length <= 3/4 over the 20 LaTeX-active/relevant ASCII characters x 2 built-in rule sets x 4 brace protections x 5 unknown-character policies, length <= 4/5 at default options, and every code point with a '
+         'built-in rule (both tables) alone, between letter/backslash/brace neighbours and next to control/combining/astral/unassigned/DEL representatives: the output parses in strict mode; for ASCII input the tree has no comment, '
+         'environment or math node; output is ASCII under replace/ignore/unihex; under fail ValueError iff a character has no rule and is outside the pass-through range.',
+         'Trusted: strict parse under the default walker context as the notion of "parseable"; the reference predicate for the fail policy. One known finding (unicode-xml, stray combining character) is listed in known_findings.json.',
+         'bounded-exhaustive strings x configurations, strict parse of every encoder output',
+         'DESIGN.md section 4 C13'),
+ 'C18': ('exploration',
+         'Node lists = strict parse of every word of length <= 5/6 over {a b , = space { } comment macro $} (and the same lists with a None entry at every position); split_at_chars with 5 separator kinds (string, two-character string, '
+         'compiled regex, callable, equals) x keep_empty x max_split in {None,0,1,2,3} x skip_none against a reference partition computed from the top-level nodes (parts, node identity, positions of new chars nodes, part spans); '
+         'split_at_node (3 predicates x keep_separators x max_split) and filter (5 option sets) against direct references; parse_keyval_content (4 repeated-key policies x extract on/off) against the composition of the two checked splits.',
+         'Trusted: the 40-line reference split (separators inside top-level chars nodes only, max_split counts splits, keep_empty only removes empty parts).',
+         'bounded-exhaustive parsed node lists x option combinations against a reference partition',
+         'DESIGN.md section 4 C18'),
+
  'C11': ('model_checking',
          'Explicit-state exploration of the real LatexTokenReader: every state (remaining input, configuration) for all words of length '
          '<= 3 (quick) / 4 (thorough) over a 15-symbol alphabet x 6172 configurations (math mode and delimiter, 2^7 enable_* switches, extra group '
